@@ -4,6 +4,8 @@ patch=$1
 cd /repo || exit 2
 if ! git diff --quiet; then echo "/repo has local changes"; exit 2; fi
 git apply "$patch" || { echo "patch does not apply"; exit 2; }
+# the evidence files are rewritten by every check: keep the ones of the unchanged tree
+rm -rf /verif/work/evidence.saved; cp -r /verif/evidence /verif/work/evidence.saved
 cd /verif
 n=0
 for p in $(python3 -c "import json; print(' '.join(c['property_id'] for c in json.load(open('MANIFEST.json'))['checks']))"); do
@@ -12,3 +14,4 @@ for p in $(python3 -c "import json; print(' '.join(c['property_id'] for c in jso
 done
 echo "alarms: $n"
 cd /repo && git checkout -- . && git clean -fdq && git status --short | head -3
+rm -rf /verif/evidence; mv /verif/work/evidence.saved /verif/evidence
